@@ -1179,6 +1179,30 @@ def _on_line(code, line):
     return None
 
 
+JUMP_POINTS = [False]  # per-case switch (progs.run_case: case["jump_points"]): backward jumps are scheduling points too
+
+
+def _on_jump(code, offset, dest):
+    """A loop iteration inside ONE source line (a comprehension over shared state) has no line event of its own;
+    with JUMP_POINTS on, every backward jump in the library's code is a scheduling point as well."""
+    info = _code_cache.get(code)
+    if info is None:
+        fn = code.co_filename
+        info = (os.path.basename(fn), code.co_name) if fn.startswith(_line_prefixes) and not fn.endswith(_line_exclude) else False
+        _code_cache[code] = info
+    if info is False:
+        return sys.monitoring.DISABLE
+    if not JUMP_POINTS[0] or dest > offset:
+        return None
+    s = CURRENT
+    if s is None:
+        return None
+    vt = s.by_ident.get(_get_ident())
+    if vt is not None and s.line_points and s.cur is vt:
+        s.point()
+    return None
+
+
 def install_monitor(prefixes):
     global _line_prefixes, _monitor_installed
     _line_prefixes = tuple(prefixes)
@@ -1187,7 +1211,8 @@ def install_monitor(prefixes):
     mon = sys.monitoring
     mon.use_tool_id(TOOL_ID, "vsched")
     mon.register_callback(TOOL_ID, mon.events.LINE, _on_line)
-    mon.set_events(TOOL_ID, mon.events.LINE)
+    mon.register_callback(TOOL_ID, mon.events.JUMP, _on_jump)
+    mon.set_events(TOOL_ID, mon.events.LINE | mon.events.JUMP)
     _monitor_installed = True
     import atexit
 
